@@ -17,6 +17,16 @@ import I3.Gen.GoMimc7
 import I3.Gen.GoGolden
 import I3.Gen.GoBabyjub
 import I3.Gen.GoIndex
+import I3.Gen.GoChkUtils
+import I3.Gen.GoChkPoseidon
+import I3.Gen.GoChkMimc7
+import I3.Gen.GoChkGolden
+import I3.Gen.GoChkBabyjub
+import I3.Gen.GoChkKeccak
+import I3.Gen.GoChkFF
+import I3.Gen.GoChkFFG
+import I3.Gen.GoChkFFLimb
+import I3.Gen.GoChkFFGLimb
 open I3 I3.Gen.Go
 
 def parseInt? (s : String) : Option Int := s.toInt?
@@ -326,19 +336,83 @@ def genOp (op : String) (pat : String) (args : List String) : Option String := d
     else if op.startsWith "ffg." then limbOp false (op.drop 4).toString args
     else pure "-"
 
-def step (line : String) : String :=
+/-- mode `ok`: what the CHECKED variants (`<name>_ok`) predict for the op — `ok` (no run-time panic) or `panics`. -/
+def okOp (op : String) (pat : String) (args : List String) : Option String := do
+  let b (x : Bool) : String := if x then "ok" else "panics"
+  match op, args with
+  | "poseidon.hashex", [inp, st, n] => pure (b (poseidon_HashWithStateEx_ok (← parseIntList? inp) (← parseInt? st) (← parseInt? n)))
+  | "mimc7.hash", [arr, key] =>
+    let key ← if key = "nil" then pure none else (parseInt? key).map some
+    pure (b (mimc7_Hash_ok (← parseIntList? arr) key))
+  | "mimc7.hashgeneric", [iv, arr, n] => pure (b (mimc7_HashGeneric_ok (← parseInt? iv) (← parseIntList? arr) (← parseInt? n)))
+  | "mimc7.mimc7hash", [x, kk] => pure (b (mimc7_MIMC7Hash_ok (← parseInt? x) (← parseInt? kk)))
+  | "mimc7.mimc7hashgeneric", [x, kk, n] => pure (b (mimc7_MIMC7HashGeneric_ok (← parseInt? x) (← parseInt? kk) (← parseInt? n)))
+  | "mimc7.hashbytes", [bs] => pure (b (mimc7_HashBytes_ok (← parseBytes? bs)))
+  | "golden.hash", [inp, cap] => pure (b (goldenposeidon_Hash_ok (← parseNatList? inp) (← parseNatList? cap)))
+  | "bj.mul", [s, x, y] => pure (b (babyjub_Point_Mul_ok babyjub_NewPoint (← parseInt? s) ((← parseInt? x), (← parseInt? y))))
+  | "bj.incurve", [x, y] => pure (b (babyjub_Point_InCurve_ok ((← parseInt? x), (← parseInt? y))))
+  | "bj.insubgroup", [x, y] => pure (b (babyjub_Point_InSubGroup_ok ((← parseInt? x), (← parseInt? y))))
+  | "bj.compress", [x, y] => pure (b (babyjub_Point_Compress_ok ((← parseInt? x), (← parseInt? y))))
+  | "bj.decompress", [bs] => pure (b (babyjub_Point_Decompress_ok (0, 1) (← parseBytes? bs)))
+  | "bj.pfsy", [sign, y] => pure (b (babyjub_PointFromSignAndY_ok (sign == "true") (← parseInt? y)))
+  | "bj.unpacksigny", [bs] => pure (b (babyjub_UnpackSignY_ok (← parseBytes? bs)))
+  | "ed.sk2big", [key] => pure (b (babyjub_SkToBigInt_ok (← parseBytes? key)))
+  | "ed.public", [key] => pure (b (babyjub_PrivateKey_Public_ok (← parseBytes? key)))
+  | "ed.sign", [h, key, msg] =>
+    if h = "poseidon" then pure (b (babyjub_PrivateKey_SignPoseidon_ok (← parseBytes? key) (← parseInt? msg)))
+    else pure (b (babyjub_PrivateKey_SignMimc7_ok (← parseBytes? key) (← parseInt? msg)))
+  | "ed.verify", [h, ax, ay, msg, rx, ry, s] =>
+    let pk := ((← parseInt? ax), (← parseInt? ay))
+    let sig := (((← parseInt? rx), (← parseInt? ry)), (← parseInt? s))
+    if h = "poseidon" then pure (b (babyjub_PublicKey_VerifyPoseidon_ok pk (← parseInt? msg) sig))
+    else pure (b (babyjub_PublicKey_VerifyMimc7_ok pk (← parseInt? msg) sig))
+  | "ed.sigcompress", [rx, ry, s] =>
+    pure (b (babyjub_Signature_Compress_ok (((← parseInt? rx), (← parseInt? ry)), (← parseInt? s))))
+  | "ed.sigdecompress", [bs] => pure (b (babyjub_Signature_Decompress_ok ((0, 1), 0) (← parseBytes? bs)))
+  | "ed.decompresssig", [t] => pure (b (babyjub_DecompressSig_ok (← parseBytes? t)))
+  | "ed.pk.marshal", [x, y] => pure (b (babyjub_PublicKey_MarshalText_ok ((← parseInt? x), (← parseInt? y))))
+  | "ed.pk.unmarshal", [t] => pure (b (babyjub_PublicKey_UnmarshalText_ok (0, 0) (← parseBytes? t)))
+  | "ed.comp.unmarshal", [n, t] =>
+    let n ← parseNat? n
+    if n = 32 then pure (b (babyjub_PublicKeyComp_UnmarshalText_ok (zeros 32) (← parseBytes? t)))
+    else pure (b (babyjub_SignatureComp_UnmarshalText_ok (zeros 64) (← parseBytes? t)))
+  | "ed.comp.scan", [n, kind, payload] =>
+    let n ← parseNat? n
+    let src ← parseSrc? kind payload
+    if n = 32 then pure (b (babyjub_PublicKeyComp_Scan_ok (zeros 32) src)) else pure (b (babyjub_SignatureComp_Scan_ok (zeros 64) src))
+  | "ed.pk.scan", [kind, payload] => pure (b (babyjub_PublicKey_Scan_ok (0, 0) (← parseSrc? kind payload)))
+  | "ed.sig.scan", [kind, payload] => pure (b (babyjub_Signature_Scan_ok ((0, 0), 0) (← parseSrc? kind payload)))
+  | "u.hexdecode", [t] => pure (b (utils_HexDecode_ok (String.ofList (I3.Go.Ext.bytesToChars (← parseBytes? t)))))
+  | "u.hexdecodeinto", [n, t] => pure (b (utils_HexDecodeInto_ok (zeros (← parseNat? n)) (← parseBytes? t)))
+  | "u.lebytes", [v] => pure (b (utils_BigIntLEBytes_ok (← parseInt? v)))
+  | "u.fromle", [bs] => pure (b (utils_SetBigIntFromLEBytes_ok 0 (← parseBytes? bs)))
+  | "u.arrinfield", [l] => pure (b (utils_CheckBigIntArrayInField_ok (← parseIntList? l)))
+  | "keccak.hash", slices => pure (b (keccak256_Hash_ok (← slices.mapM parseBytes?)))
+  | "ff.sqrt", [x] => pure (b (ff_Element_Sqrt_ok 123456789 ((← parseNat? x) % Gen.ff_modulus)))
+  | "ffg.sqrt", [x] => pure (b (ffg_Element_Sqrt_ok 123456789 ((← parseNat? x) % Gen.ffg_modulus)))
+  | "ff.batchinv", [l] => pure (b (ff_BatchInvert_ok ((← parseNatList? l).map (· % Gen.ff_modulus))))
+  | "ff.exp", [x, e] => pure (b (ff_Element_Exp_ok 0 ((← parseNat? x) % Gen.ff_modulus) (← parseInt? e)))
+  | "ff.setbigint", [v] => pure (b (ffl_Element_SetBigInt_ok (stale 4) (← parseInt? v)))
+  | "ff.setbytes", [bs] => pure (b (ffl_Element_SetBytes_ok (stale 4) (← parseBytes? bs)))
+  | "ff.bytes", [x] => pure (b (ffl_Element_Bytes_ok (ffEl (← parseInt? x))))
+  | "ff.string", [x] => pure (b (ffl_Element_String_ok (ffEl (← parseInt? x))))
+  | "ff.bit", [x, i] => pure (b (ffl_Element_Bit_ok (ffEl (← parseInt? x)) (← parseNat? i)))
+  | "ffg.setbigint", [v] => pure (b (ffgl_Element_SetBigInt_ok (stale 1) (← parseInt? v)))
+  | _, _ => pure "-"
+
+def step (mode : String) (line : String) : String :=
   match (line.trimAscii.toString.splitOn " ").filter (· ≠ "") with
   | [] => "bad-op"
   | op :: args =>
     let pat := (op.splitOn "@").getD 1 ""
     let op := (op.splitOn "@").headD op
-    (genOp op pat args).getD "bad-op"
+    if mode = "ok" then (okOp op pat args).getD "bad-op" else (genOp op pat args).getD "bad-op"
 
-partial def loop (hin hout : IO.FS.Stream) : IO Unit := do
+partial def loop (mode : String) (hin hout : IO.FS.Stream) : IO Unit := do
   let line ← hin.getLine
   if line.isEmpty then return ()
-  hout.putStrLn (step line)
-  loop hin hout
+  hout.putStrLn (step mode line)
+  loop mode hin hout
 
 def main (args : List String) : IO Unit := do
   if args.head? = some "index" then
@@ -346,5 +420,5 @@ def main (args : List String) : IO Unit := do
     return
   let hin ← IO.getStdin
   let hout ← IO.getStdout
-  loop hin hout
+  loop (args.headD "gen") hin hout
   hout.flush
